@@ -1,5 +1,5 @@
 (* C02 - handling order respects mailbox acceptance order.  Property theorems only. *)
-From RS Require Import Tactics Spec Lifecycle Queue QueueStep CoreInv Delivery AccTrace Reply RealTime.
+From RS Require Import Tactics Spec Lifecycle Queue QueueStep CoreInv Delivery AccTrace Reply RealTime Chan ChanInv.
 
 (* FIFO: the sequence of handler entries is the sequence of envelopes in acceptance order,
    cut at some point - there is one queue, and handlers run inline in the loop *)
@@ -63,6 +63,12 @@ Example C02_example_run :
   option_map o_ph (get_op (run no_feats c02_example) 3) = Some (ODone (ROk 7)).
 Proof. vm_compute. repeat split; reflexivity. Qed.
 
+(* ---- at permit granularity (Model/Chan.v): whatever happens between a sender obtaining its permit
+   and pushing, the messages of one sender are taken in its program order *)
+Theorem C02_fine_per_sender_order : forall w cap n ls a b d i k1 k2,
+  c_handled (crun w cap n ls) = a ++ (i, k1) :: b ++ (i, k2) :: d -> k1 < k2.
+Proof. exact chan_handled_ordered. Qed.
+
 Check C02_fifo. Check C02_stop_in_order. Check C02_one_queue.
 Check C02_accepted_iff_logged. Check C02_sent_is_accepted. Check C02_realtime_order.
 Print Assumptions C02_accepted_iff_logged.
@@ -72,3 +78,5 @@ Print Assumptions C02_example_run.
 Print Assumptions C02_fifo.
 Print Assumptions C02_stop_in_order.
 Print Assumptions C02_one_queue.
+Check C02_fine_per_sender_order.
+Print Assumptions C02_fine_per_sender_order.
